@@ -37,6 +37,7 @@ SIG = {
     "undefined_dir": "edif.writer.undefined_direction",
     "one_pin_array": "edif.writer.one_pin_array_port",
     "bitlike_scalar": "edif.convention.scalar_net_named_like_bus_bit",
+    "dup_base_bit": "edif.reader.duplicate_base_bit_shifts_bus",
 }
 # a failure is attributed to an open finding only if the input carries that finding's trigger AND the
 # failure is of the kind the defect produces; anything else keeps its generic signature
@@ -49,6 +50,7 @@ EXPECT = {
     "undefined_dir": ["reparse.raises.runtime"],
     "one_pin_array": ["roundtrip.view03.libraries.ports"],
     "bitlike_scalar": ["roundtrip.view03.libraries.nets", "roundtrip.view03.libraries.#"],
+    "dup_base_bit": ["parse.view05.libs.cells.cables", "parse.file_view05.libs.cells.cables"],
 }
 
 
@@ -69,7 +71,7 @@ def derived_triggers03(c):
     return out
 
 
-TRIG05 = ["design_case", "after_design", "amp_bus", "glob", "bracket_tail"]
+TRIG05 = ["design_case", "after_design", "amp_bus", "glob", "bracket_tail", "dup_base_bit"]
 TRIG03 = ["undefined_dir", "one_pin_array", "bitlike_scalar", "amp_bus", "glob", "bracket_tail"]
 
 
@@ -394,99 +396,30 @@ def c05_run_file(sr, work, drv, inp, model_limit):
     wf = canon.wf_problems(nl)
     if wf:
         sr.spec_failure("parse.result_not_well_formed." + wf[0].replace(" ", "_"), inp, "; ".join(wf[:5]))
+    # P for files: an independent reading of the text (edif_gen.denote_text: s-expression scan with the
+    # property's semantics) must give the same libraries, cells, ports, instances, cables and top
+    trig = None
+    try:
+        w = G.denote_text(text)
+        feats = w.pop("features", set())
+        trig = "dup_base_bit" if "dup_base_bit" in feats else None
+        d = G.first_diff(G.strip_props(G.view05(c)), w)
+        if d:
+            sig, det = classify(trig, "parse.file_view05." + G.kind_of_path(d), "first difference at " + d)
+            sr.spec_failure(sig, dict(inp, trigger=trig), det)
+    except Exception as e:  # noqa
+        sr.dist("c05.bundled-file.oracle-not-applicable")
     if len(text) <= model_limit:
         m = drv.ask({"fn": "parse", "text": text})
         if "ok" in m:
             d = G.first_diff(m["ok"], c)
             if d:
-                sr.corr_mismatch("reader: canon(sdn.parse(file)) = ofSExp(readS(lexE text))", inp, {"diff_at": d}, None)
+                sr.corr_mismatch("reader: canon(sdn.parse(file)) = ofSExp(readS(lexE text))", inp, {"diff_at": d}, None,
+                                 signature=(SIG[trig] if trig else None))
         else:
             sr.corr_mismatch("reader: canon(sdn.parse(file)) = ofSExp(readS(lexE text))", inp, "accepted", m)
-        # P for files: an independent reading of the text (python s-expression scan) must find the same
-        # numbers of libraries / cells / instances / nets-after-merging as the parsed netlist
-        d = independent_counts_diff(text, c)
-        if d:
-            sr.spec_failure("parse.file_counts." + d[0], inp, d[1])
     else:
         sr.dist("c05.bundled-file.above-model-size-limit")
-
-
-def sexp_of_text(text):
-    """small independent s-expression reader (python), used only for the bundled-file oracle"""
-    toks = []
-    i, n = 0, len(text)
-    while i < n:
-        ch = text[i]
-        if ch in "()":
-            toks.append(ch)
-            i += 1
-        elif ch == '"':
-            j = text.index('"', i + 1)
-            toks.append(text[i:j + 1].replace("\n", "").replace("\r", ""))
-            i = j + 1
-        elif ch in " \t\r\n":
-            i += 1
-        else:
-            j = i
-            while j < n and text[j] not in ' \t\r\n()"':
-                j += 1
-            toks.append(text[i:j])
-            i = j
-    stack = [[]]
-    for t in toks:
-        if t == "(":
-            stack.append([])
-        elif t == ")":
-            x = stack.pop()
-            stack[-1].append(x)
-        else:
-            stack[-1].append(t)
-    return stack[0][0]
-
-
-def independent_counts_diff(text, c):
-    """what the text declares, counted directly on the s-expression tree, vs the parsed netlist"""
-    try:
-        t = sexp_of_text(text)
-    except Exception as e:  # noqa
-        return ("oracle_failed", str(e))
-
-    def kw(x):
-        return x[0].lower() if isinstance(x, list) and x and isinstance(x[0], str) else None
-
-    def ident(x):
-        return x[1] if isinstance(x, list) else x
-    libs = [x for x in t if kw(x) in ("library", "external")]
-    if len(libs) != len(c["libraries"]):
-        return ("libraries", "%d in text, %d parsed" % (len(libs), len(c["libraries"])))
-    for L, CL in zip(libs, c["libraries"]):
-        cells = [x for x in L if kw(x) == "cell"]
-        if len(cells) != len(CL["definitions"]):
-            return ("cells", "library %s: %d in text, %d parsed" % (CL["name"], len(cells), len(CL["definitions"])))
-        for cell, CD in zip(cells, CL["definitions"]):
-            if ident(cell[1]).lower() != str(CD["data"].get("EDIF.identifier")).lower():
-                return ("cell_identifier", "%s vs %s" % (ident(cell[1]), CD["data"].get("EDIF.identifier")))
-            views = [x for x in cell if kw(x) == "view"]
-            ports, insts, nets = [], [], []
-            for v in views:
-                for x in v:
-                    if kw(x) == "interface":
-                        ports += [y for y in x if kw(y) == "port"]
-                    if kw(x) == "contents":
-                        insts += [y for y in x if kw(y) == "instance"]
-                        nets += [y for y in x if kw(y) == "net"]
-            if len(ports) != len(CD["ports"]):
-                return ("ports", "cell %s: %d in text, %d parsed" % (CD["name"], len(ports), len(CD["ports"])))
-            if len(insts) != len(CD["instances"]):
-                return ("instances", "cell %s: %d in text, %d parsed" % (CD["name"], len(insts), len(CD["instances"])))
-            nwires = sum(len(cb["wires"]) for cb in CD["cables"])
-            npins_text = sum(1 for nt in nets for j in nt if kw(j) == "joined" for p in j if kw(p) == "portref")
-            npins = sum(len(w) for cb in CD["cables"] for w in cb["wires"])
-            if npins_text != npins:
-                return ("joined_pins", "cell %s: %d portRefs in text, %d pins on wires" % (CD["name"], npins_text, npins))
-            if nwires < len(nets):
-                return ("nets", "cell %s: %d nets in text, only %d wires parsed" % (CD["name"], len(nets), nwires))
-    return None
 
 
 # ------------------------------------------------------------------------------------------------
@@ -646,7 +579,7 @@ def c03_run_parsed(sr, work, drv, inp, text=None, path=None):
 
 
 WRITER_TRIGS = {"undefined_dir", "one_pin_array"}
-READER_TRIGS = {"amp_bus", "glob", "bracket_tail", "design_case", "after_design"}
+READER_TRIGS = {"amp_bus", "glob", "bracket_tail", "design_case", "after_design", "dup_base_bit"}
 
 
 def corr_sig(res, what=""):
